@@ -1,6 +1,7 @@
 package scen
 
 import (
+	"context"
 	"errors"
 	"fmt"
 	"time"
@@ -26,11 +27,16 @@ const (
 	hbNackOK
 	hbNackErr
 	hbNackPanic
+	hbErrCanceled
 	hbCount
 )
 
+const c2PubKinds = 4
+
+var c2PubFaults = [c2PubKinds]PubFault{PubOK, PubErr, PubPanic, PubErrCanceled}
+
 var hbNames = [...]string{"return-0", "return-1", "return-3", "error", "error+2msgs", "panic(string)", "panic(error)", "panic(nil)",
-	"Ack-then-1msg", "Ack-then-error", "Ack-then-panic", "Nack-then-1msg", "Nack-then-error", "Nack-then-panic"}
+	"Ack-then-1msg", "Ack-then-error", "Ack-then-panic", "Nack-then-1msg", "Nack-then-error", "Nack-then-panic", "error(context.Canceled)"}
 
 const (
 	mpNone = iota
@@ -85,7 +91,7 @@ func hbOutputs(hb int) int {
 
 func hbFails(hb int) bool {
 	switch hb {
-	case hbErr, hbErrWithMsgs, hbPanicStr, hbPanicErr, hbPanicNil, hbAckErr, hbAckPanic, hbNackErr, hbNackPanic:
+	case hbErr, hbErrWithMsgs, hbPanicStr, hbPanicErr, hbPanicNil, hbAckErr, hbAckPanic, hbNackErr, hbNackPanic, hbErrCanceled:
 		return true
 	}
 	return false
@@ -127,12 +133,12 @@ var errC2Handler = errors.New("scripted handler error")
 
 func c02Body(r *Run) {
 	t := r.T
-	cell := t.Int(hbCount * 3 * 2 * mpCount)
+	cell := t.Int(hbCount * c2PubKinds * 2 * mpCount)
 	mixed := t.Chance(1, 2)
 	hb := cell % hbCount
-	pbv := PubFault((cell / hbCount) % 3)
-	hk := (cell / (hbCount * 3)) % 2
-	mp := (cell / (hbCount * 3 * 2)) % mpCount
+	pbv := c2PubFaults[(cell/hbCount)%c2PubKinds]
+	hk := (cell / (hbCount * c2PubKinds)) % 2
+	mp := (cell / (hbCount * c2PubKinds * 2)) % mpCount
 	nHandlers := 1
 	if mixed {
 		nHandlers = 1 + t.Skewed(3)
@@ -166,7 +172,7 @@ func c02Body(r *Run) {
 			h.sub.Script[h.topic] = append(h.sub.Script[h.topic], sm)
 			if mixed {
 				for a := 0; a <= h.sub.MaxRedeliver+sm.Dup+1; a++ {
-					h.plans[fmt.Sprintf("%s#%d", sm.UUID, a)] = c2Plan{hb: t.Int(hbCount), pb: PubFault(t.Int(3))}
+					h.plans[fmt.Sprintf("%s#%d", sm.UUID, a)] = c2Plan{hb: t.Int(hbCount), pb: c2PubFaults[t.Int(c2PubKinds)]}
 				}
 			}
 		}
@@ -208,6 +214,12 @@ func c02Body(r *Run) {
 				msg.Nack()
 			}
 			switch p.hb {
+			case hbErrCanceled:
+				r.Fault("handler-error")
+				if d.Attempt%2 == 0 {
+					return nil, context.Canceled
+				}
+				return nil, fmt.Errorf("handler interrupted: %w", context.Canceled)
 			case hbErr, hbAckErr, hbNackErr:
 				r.Fault("handler-error")
 				return nil, errC2Handler
@@ -235,7 +247,7 @@ func c02Body(r *Run) {
 			for _, d := range h.sub.Deliveries {
 				if fmt.Sprintf("%s#%d", d.Msg.UUID, d.Attempt) == src {
 					p := h.planFor(d)
-					selfSettled := p.hb >= hbAckOK
+					selfSettled := p.hb >= hbAckOK && p.hb <= hbNackPanic
 					if !selfSettled && d.Settled() {
 						r.Fail("C02.R3", "the consumed message was already settled while its outputs were being published", "handler %s %s acked=%v nacked=%v inside Publish", h.name, src, d.Acked(), d.Nacked())
 					}
@@ -309,7 +321,7 @@ func c02Body(r *Run) {
 					if !d.Acked() {
 						sig = "message nacked although the chain succeeded and its outputs were accepted"
 					}
-					if p.hb >= hbAckOK {
+					if p.hb >= hbAckOK && p.hb <= hbNackPanic {
 						sig = "a settlement made by the handler itself was overridden"
 					}
 					r.Fail("C02.R2", sig, "%s: acked=%v expected %v", what, d.Acked(), e.acked)
@@ -355,7 +367,7 @@ func init() {
 		Body: c02Body,
 		Prefixes: func(tier string) [][]uint32 {
 			var out [][]uint32
-			for c := 0; c < hbCount*3*2*mpCount; c++ {
+			for c := 0; c < hbCount*c2PubKinds*2*mpCount; c++ {
 				out = append(out, []uint32{uint32(c), 0})
 			}
 			return out
